@@ -3,7 +3,7 @@ from __future__ import annotations
 
 from vf import absval as av
 from vf import sess as S
-from vf.common import Acc, Ctx, norm_msg
+from vf.common import Acc, CpuTimeout, Ctx, cpu_limit, norm_msg
 from vf.gen import corrupt as C
 from vf.gen import values as gv
 from vf.ref import ber, rfc4511
@@ -116,9 +116,14 @@ def run_case(sess_kind, stream: bytes, cuts):
         buf = bytearray(ch) if kind else None
         arg = ch if kind == 0 else (buf if kind == 1 else memoryview(buf))
         try:
-            res = sess.receive(arg)
+            with cpu_limit(10):
+                res = sess.receive(arg)
             if buf is not None:
                 buf[:] = b"\xAA" * len(buf)
+        except CpuTimeout:
+            out.append(("no-return-within-cpu-budget", "receive did not return within 10 CPU-seconds"))
+            raised = True
+            break
         except sl.ProtocolError:
             raised = True
             obs["outcome:raised"] = 1
